@@ -301,7 +301,7 @@ def run_exp(sh, ctx):
 				if c < 0.4:
 					inputs.append(q['label'])
 				elif c < 0.7:
-					inputs.append(QueryInput(q['label'], SequenceFile(f'/some/dir/{qi} file.fasta', 'fasta', rng.choice([None, 'gzip', 'auto']))))
+					inputs.append(QueryInput(q['label'], SequenceFile(rng.choice([f'/some/dir/{qi} file.fasta', f'lists/../genomes/{qi}.fasta', f'./rel/./{qi}.fa', f'../up/{qi}.fasta', f'/abs/a/../../b/{qi}.fna', f'trailing/dir/../{qi} .fa ']), 'fasta', rng.choice([None, 'gzip', 'auto']))))
 				else:
 					inputs.append(QueryInput(q['label']))
 			results = query(db, qs, params, inputs=inputs)
